@@ -681,7 +681,7 @@ func Reference(cwd string, inv *Inv, stdin []byte) *Expect {
 			if timeJ && len(t.Srcs) == 1 {
 				ef.Mtime = &mt
 			}
-			if modeJ && len(t.Srcs) == 1 && outIsDir {
+			if len(t.Srcs) == 1 && outIsDir {
 				rel, _ := filepath.Rel(t.Root, t.Srcs[0])
 				for d := filepath.Dir(rel); d != "." && d != "/"; d = filepath.Dir(d) {
 					fi, err := os.Stat(c.abs(filepath.Join(t.Root, d)))
@@ -692,7 +692,9 @@ func Reference(cwd string, inv *Inv, stdin []byte) *Expect {
 					if !ok {
 						break
 					}
-					if old, seen := exp.DirModes[dr]; seen && old != fi.Mode().Perm() {
+					if !modeJ {
+						exp.DirModes[dr] = 0o7777 // explicit --preserve without "mode": not judged
+					} else if old, seen := exp.DirModes[dr]; seen && old != fi.Mode().Perm() {
 						exp.DirModes[dr] = 0o7777 // conflicting sources: not judged
 					} else if !seen {
 						exp.DirModes[dr] = fi.Mode().Perm()
